@@ -32,7 +32,7 @@ func (g *connGen) connection(peer [4]byte, sport, dport int) {
 	g.add(ipFrame(6, peer, ipMe, tcpSeg(sport, dport, isn, 0, 5, fSYN, nil)), nil)
 	// third step of the handshake: acceptable acknowledgment (ISS .. ISS+2) or not
 	rel := r.PickInt([]int{1, 2, 2, 2, 0, 2, 7})
-	g.add(ipFrame(6, peer, ipMe, tcpSeg(sport, dport, isn+1, 0, 5, fACK, nil)), &Step{SetAck: true, AckRel: rel, WaitMs: r.PickInt([]int{0, 0, 2})})
+	g.add(ipFrame(6, peer, ipMe, tcpSeg(sport, dport, isn+1, 0, 5, fACK, nil)), &Step{SetAck: true, Poll: true, AckRel: rel, WaitMs: r.PickInt([]int{0, 0, 2})})
 	seq := isn + 1
 	nseg := r.PickInt([]int{0, 1, 2, 2, 3, 4, 6})
 	noPush := r.Chance(1, 4) // data piles up unread
@@ -91,7 +91,7 @@ func corpusConn(mode string, id int) HistIn {
 	in := HistIn{Mode: mode, Arp: [][4]byte{peerArp, gwOK}, Note: "corpus:conn data after the reader returned"}
 	g := &connGen{in: &in}
 	g.add(ipFrame(6, peerArp, ipMe, tcpSeg(2500, 4000, 100, 0, 5, fSYN, nil)), nil)
-	g.add(ipFrame(6, peerArp, ipMe, tcpSeg(2500, 4000, 101, 0, 5, fACK, nil)), &Step{SetAck: true, AckRel: 2})
+	g.add(ipFrame(6, peerArp, ipMe, tcpSeg(2500, 4000, 101, 0, 5, fACK, nil)), &Step{SetAck: true, Poll: true, AckRel: 2})
 	g.add(ipFrame(6, peerArp, ipMe, tcpSeg(2500, 4000, 101, 0, 5, fACK|fPSH, []byte("hello"))), &Step{SetAck: true, AckRel: 2, WaitMs: 5})
 	g.add(ipFrame(6, peerArp, ipMe, tcpSeg(2500, 4000, 106, 0, 5, fACK|fPSH, []byte("again"))), &Step{SetAck: true, AckRel: 3, WaitMs: 30})
 	g.add(ipFrame(6, peerArp, ipMe, tcpSeg(2500, 4000, 111, 0, 5, fACK|fFIN, nil)), &Step{SetAck: true, AckRel: 3})
